@@ -1282,8 +1282,10 @@ class Store:
         target_path = target.path_for() + source_path[-1:]
         # the newcomer gets what the target store declares for its
         # children, as a child that enters by _add or _generate does
-        target._apply_subschema_path(source_path[-1:])
-        target.get_path(source_path[-1:]).apply_defaults()
+        # (for a nested source path that includes the intermediate nodes
+        # add_node built on the way)
+        target_node._apply_subschema_path(source_path)
+        target_node.get_path(source_path[:1]).apply_defaults()
 
         # find the paths to all the processes
         source_process_paths = source_node.depth(
